@@ -9,6 +9,12 @@
 //! control tuples over an integer alphabet {-R..R}: every tuple is placed on every axis of every curve
 //! type (the other axes carry a *different* tuple, chosen by a bijection of the tuple list, so boxes see
 //! independent axes).
+//!
+//! Second audit (sections after the wide-range one and at the end): the same tuples *just above the degeneracy thresholds* of the
+//! per-axis code (x 2^-28 / 2^-51 on X and f64, x 2^-14 / 2^-22 on f32), *far from the origin* (+-2^26 / +2^12 added: extrema, boxes;
+//! +2^26 / +2^8: length; +2^30: search), tiny curves at 1 (relative near-ties), *nearly quadratic cubics* (leading derivative
+//! coefficient 3 * 2^-j above epsilon: fires on the unchanged tree, classes `nearly-quadratic:`), the general entry point of the search
+//! on floats and the smallest admissible epsilon.
 use rayon::prelude::*;
 use std::collections::BTreeMap;
 use std::cell::Cell;
@@ -308,6 +314,24 @@ struct AxisRef {
     mag: f64,
     nonconst: bool,
     weight: u64,
+    /// second audit: `c` = `base` + delta on the last control, with an integer `base` and a delta whose denominator is too large
+    /// for the i128 rationals to carry through a de Casteljau evaluation at a parameter rounded to 2^-38 (float tiers only)
+    pert: Option<(Vec<Q>, Q)>,
+}
+/// curve value of the reference at t: exact, except for a perturbed tuple, where the integer base is evaluated exactly and the
+/// term delta * t^3 is added in f64 (two roundings of <= 2^-53 relative to M, far below every tolerance of the float tiers)
+fn ref_value(r: &AxisRef, t: Q) -> Q {
+    match &r.pert {
+        None => casteljau(&r.c, t),
+        Some((base, d)) => { let tf = t.to_f64(); Q::from_f64(casteljau(base, t).to_f64() + d.to_f64() * tf * tf * tf).expect("finite reference value") }
+    }
+}
+/// derivative of the reference at t (same construction; the last control enters x' with 3 t^2)
+fn ref_deriv(r: &AxisRef, t: Q) -> Q {
+    match &r.pert {
+        None => dcasteljau(&r.c, t),
+        Some((base, d)) => { let tf = t.to_f64(); Q::from_f64(dcasteljau(base, t).to_f64() + 3.0 * d.to_f64() * tf * tf).expect("finite reference derivative") }
+    }
 }
 
 fn where01(t: Q) -> u8 { if t > Q::ZERO && t < Q::ONE { 0 } else if t == Q::ZERO || t == Q::ONE { 1 } else { 2 } }
@@ -391,7 +415,7 @@ fn axis_ref(c: &[Q]) -> AxisRef {
     let mag = c.iter().map(|q| q.abs().to_f64()).fold(0.0, f64::max);
     AxisRef {
         c: c.to_vec(), branch, extra, rational, lo: if rational { Some(lo) } else { None }, hi: if rational { Some(hi) } else { None }, lo_f, hi_f, glo, ghi, mag,
-        nonconst: c.iter().any(|q| *q != c[0]), weight: 0,
+        nonconst: c.iter().any(|q| *q != c[0]), weight: 0, pert: None,
     }
 }
 
@@ -456,7 +480,9 @@ fn bump(c: &mut Cls, k: &'static str) { *c.entry(k).or_insert(0) += 1; }
 fn flush(s: &Section, c: Cls) { for (k, n) in c { s.class_n(k, n); } }
 
 /// one extremum parameter against the reference.  `pre` prefixes the class ("" / "min-" / "small-scale:" ...)
-fn check_extremum<T: El>(s: &Section, site: &str, func: &str, pre: &str, is_min: bool, t: T, r: &AxisRef, inp: &dyn Fn() -> Value, w: u64, cls: &mut Cls) {
+/// `xt`: additional tolerance (0 everywhere except in the shifted float sweeps, where vek's own evaluate() carries the offset)
+#[allow(clippy::too_many_arguments)]
+fn check_extremum<T: El>(s: &Section, site: &str, func: &str, pre: &str, xt: f64, is_min: bool, t: T, r: &AxisRef, inp: &dyn Fn() -> Value, w: u64, cls: &mut Cls) {
     let what = if is_min { "minimum" } else { "maximum" };
     let Some(tq) = t.to_q() else { s.violation_w(site, &format!("{}non-finite-parameter", pre), json!({"input": inp(), "function": func, "t": jd(&t)}), w); return; };
     if tq < Q::ZERO || tq > Q::ONE {
@@ -464,14 +490,15 @@ fn check_extremum<T: El>(s: &Section, site: &str, func: &str, pre: &str, is_min:
         return;
     }
     bump(cls, if tq == Q::ZERO { if is_min { "min-at-start" } else { "max-at-start" } } else if tq == Q::ONE { if is_min { "min-at-end" } else { "max-at-end" } } else if is_min { "min-interior" } else { "max-interior" });
-    let xq = casteljau(&r.c, evalt::<T>(tq));
-    let tl = tol::<T>(r.mag, 6.0);
+    let xq = ref_value(r, evalt::<T>(tq));
+    let tl = tol::<T>(r.mag, 6.0) + xt;
     let (want, want_f, grid) = if is_min { (r.lo, r.lo_f, r.glo) } else { (r.hi, r.hi_f, r.ghi) };
     // (1) some point of the dense grid is smaller (larger) than the curve is at the returned parameter
     let beaten = if is_min { exceeds::<T>(xq, grid, tl) } else { exceeds::<T>(grid, xq, tl) };
     // (2) the value there is the extremum over [0,1]
     let off = cmp_tol::<T>(xq, want, want_f, tl) != 0;
     if beaten || off {
+        if let Some((_, d)) = &r.pert { bump(cls, delta_label(*d, true)); }
         s.violation_w(site, &format!("{}not-the-{}", pre, what), json!({"input": inp(), "function": func, "axis_controls": jqs(&r.c), "returned_t": jq(tq), "curve_there": jq(xq),
             format!("{}_over_unit_interval", what): want.map(jq).unwrap_or(json!(want_f)), format!("grid_{}", what): jq(grid), "beaten_by_grid_point": beaten, "branch": r.branch}), w);
     }
@@ -488,28 +515,55 @@ enum Mode {
     /// controls multiplied by 2^k (exact in every element type); everything is asserted (classes prefixed `scaled:`): parameters are
     /// scale-invariant, box coordinates are multiplied by 2^-k (exact) before the comparison with the unscaled reference
     Scaled(i32),
+    /// second audit: 2^k added to every control (exact in every element type): the curve keeps its shape far from the origin.  Parameters
+    /// are translation-invariant; box coordinates have 2^k subtracted (exact) before the comparison.  Classes prefixed `shifted:`.
+    /// `Shifted(k, negative)`: the offset is -2^k if `negative`.
+    Shifted(i32, bool),
+    /// second audit: controls multiplied by the tiny factor and moved to the offset (exact type only): values that are nearly equal
+    /// *relative to their size*.  Asserted like `Small` (same sites and classes: same absolute-epsilon regime).
+    SmallAt(Q, Q),
+    /// second audit: controls as they are, sites per type (as in `Small`) and classes prefixed with the tag
+    Tagged(&'static str),
 }
 impl Mode {
-    fn tag(self) -> String { match self { Mode::Plain | Mode::Small(_) => String::new(), Mode::Scaled(k) => format!(" x 2^{}", k) } }
+    fn tag(self) -> String {
+        match self {
+            Mode::Plain | Mode::Small(_) => String::new(), Mode::Scaled(k) => format!(" x 2^{}", k), Mode::Shifted(k, n) => format!(" {} 2^{}", if n { "-" } else { "+" }, k),
+            Mode::SmallAt(f, o) => format!(" x {:?} + {:?}", f, o), Mode::Tagged(t) => format!(" [{}]", t),
+        }
+    }
 }
 
 /// all per-axis functions and the boxes of one curve
 fn check_curve<T: El, B: Bz<T>>(s: &Section, st: &[Sites], refs: &[&AxisRef], mode: Mode, cls: &mut Cls) {
     let k = B::K;
-    let small = matches!(mode, Mode::Small(_));
+    let small = matches!(mode, Mode::Small(_) | Mode::SmallAt(..));
+    let per_type = small || matches!(mode, Mode::Tagged(_));
     let mut pts: Vec<P<T>> = vec![[T::zero(); 3]; k];
     for a in 0..B::D { for i in 0..k {
-        pts[i][a] = match mode { Mode::Plain => T::of_q(refs[a].c[i]), Mode::Small(f) => T::of_q(refs[a].c[i].mul(f)), Mode::Scaled(e) => T::of_q_scaled(refs[a].c[i], e) };
+        pts[i][a] = match mode {
+            Mode::Plain | Mode::Tagged(_) => T::of_q(refs[a].c[i]), Mode::Small(f) => T::of_q(refs[a].c[i].mul(f)), Mode::Scaled(e) => T::of_q_scaled(refs[a].c[i], e),
+            Mode::Shifted(e, n) => T::of_q(refs[a].c[i].add(if n { pow2q(e).neg() } else { pow2q(e) })), Mode::SmallAt(f, o) => T::of_q(refs[a].c[i].mul(f).add(o)),
+        };
     } }
-    let unsc = |v: T| match mode { Mode::Scaled(e) => v.unscaled(e), Mode::Small(f) => v * T::of_q(f.recip()), Mode::Plain => v };
+    let unsc = |v: T| match mode {
+        Mode::Scaled(e) => v.unscaled(e), Mode::Small(f) => v * T::of_q(f.recip()), Mode::Plain | Mode::Tagged(_) => v,
+        Mode::Shifted(e, n) => v - T::of_q(if n { pow2q(e).neg() } else { pow2q(e) }), Mode::SmallAt(f, o) => (v - T::of_q(o)) * T::of_q(f.recip()),
+    };
+    // shifted float sweeps: vek decides min/max and fills the boxes with its own evaluate() at coordinates of size 2^e + M; one
+    // evaluation is a sum of <= 4 products of <= 6 factors with weights summing to 1 on [0,1]: forward error <= 16 eps (2^e + M).
+    // A decision between two such values can be off by twice that, a box coordinate once more: 3 * 16 eps (2^e + M) on top.
+    let xt = |r: &AxisRef| -> f64 { match mode { Mode::Shifted(e, _) if !T::EXACT => 48.0 * T::EPS * (pow2f(e) + r.mag), _ => 0.0 } };
     let cur = B::build(&pts);
     let w: u64 = refs.iter().map(|r| r.weight).sum();
     let inp = || match mode {
         Mode::Small(f) => json!({"type": B::NAME, "elem": T::NAME, "controls_per_axis": refs.iter().map(|r| jqs(&r.c)).collect::<Vec<_>>(), "every_control_multiplied_by": jq(f)}),
         Mode::Scaled(e) => json!({"type": B::NAME, "elem": T::NAME, "controls_per_axis": refs.iter().map(|r| jqs(&r.c)).collect::<Vec<_>>(), "every_control_multiplied_by": format!("2^{}", e)}),
-        Mode::Plain => json!({"type": B::NAME, "elem": T::NAME, "controls_per_axis": refs.iter().map(|r| jqs(&r.c)).collect::<Vec<_>>()}),
+        Mode::Shifted(e, n) => json!({"type": B::NAME, "elem": T::NAME, "controls_per_axis": refs.iter().map(|r| jqs(&r.c)).collect::<Vec<_>>(), "every_control_increased_by": format!("{}2^{}", if n { "-" } else { "" }, e)}),
+        Mode::SmallAt(f, o) => json!({"type": B::NAME, "elem": T::NAME, "controls_per_axis": refs.iter().map(|r| jqs(&r.c)).collect::<Vec<_>>(), "every_control_multiplied_by": jq(f), "then_increased_by": jq(o)}),
+        Mode::Plain | Mode::Tagged(_) => json!({"type": B::NAME, "elem": T::NAME, "controls_per_axis": refs.iter().map(|r| jqs(&r.c)).collect::<Vec<_>>()}),
     };
-    let pre = match mode { Mode::Plain => "", Mode::Small(_) => "small-scale:", Mode::Scaled(_) => "scaled:" };
+    let pre = match mode { Mode::Plain => "", Mode::Small(_) | Mode::SmallAt(..) => "small-scale:", Mode::Scaled(_) => "scaled:", Mode::Shifted(..) => "shifted:", Mode::Tagged(t) => t };
     // axes whose extent over [0,1] is spanned by the two end points (no stationary point needed)
     let ends: Vec<bool> = refs.iter().map(|r| {
         let (e_lo, e_hi) = (r.c[0].min(r.c[k - 1]), r.c[0].max(r.c[k - 1]));
@@ -522,7 +576,7 @@ fn check_curve<T: El, B: Bz<T>>(s: &Section, st: &[Sites], refs: &[&AxisRef], mo
         // ---- inflections: reported parameters are zeros of the derivative inside [0,1]
         // (small-scale findings are keyed per type, not per axis: one absolute-epsilon cause)
         {
-            let isite = if small { format!("{}::*_inflection{}", B::NAME, if B::K == 4 { "s" } else { "" }) } else { st[a].infl.clone() };
+            let isite = if per_type { format!("{}::*_inflection{}", B::NAME, if B::K == 4 { "s" } else { "" }) } else { st[a].infl.clone() };
             s.eval(r.nonconst);
             if let Some(ts) = s.call(&st[a].infl, &inp, || cur.infl(a)) {
                 bump(cls, ["reported-0-inflections", "reported-1-inflection", "reported-2-inflections"][ts.len()]);
@@ -532,7 +586,7 @@ fn check_curve<T: El, B: Bz<T>>(s: &Section, st: &[Sites], refs: &[&AxisRef], mo
                         s.violation_w(&isite, &format!("{}parameter-outside-unit-interval", pre), json!({"input": inp(), "function": st[a].infl, "axis_controls": jqs(&r.c), "reported_t": jq(tq), "branch": r.branch}), w);
                         continue;
                     }
-                    let dq = dcasteljau(&r.c, evalt::<T>(tq));
+                    let dq = ref_deriv(r, evalt::<T>(tq));
                     if exceeds::<T>(qabs(dq), Q::ZERO, tol::<T>(r.mag, 24.0)) {
                         s.violation_w(&isite, &format!("{}not-a-zero-of-the-derivative", pre), json!({"input": inp(), "function": st[a].infl, "axis_controls": jqs(&r.c), "reported_t": jq(tq), "derivative_there": jq(dq), "branch": r.branch}), w);
                     } else if small && r.nonconst { bump(cls, "small-scale:reported-inflection-is-a-zero"); }
@@ -543,7 +597,8 @@ fn check_curve<T: El, B: Bz<T>>(s: &Section, st: &[Sites], refs: &[&AxisRef], mo
         // (small-scale findings are keyed per type, not per axis: one absolute-epsilon cause; the function is in the detail.
         //  Where the extremum over [0,1] is attained at an end point no stationary point is needed to find it: those cases get
         //  their own class prefix, so that a failure there is not taken for the known interior-extremum finding.)
-        let (smin, smax) = if small { (format!("{}::min_*", B::NAME), format!("{}::max_*", B::NAME)) } else { (st[a].min.clone(), st[a].max.clone()) };
+        let (smin, smax) = if per_type { (format!("{}::min_*", B::NAME), format!("{}::max_*", B::NAME)) } else { (st[a].min.clone(), st[a].max.clone()) };
+        let sbounds = if per_type { format!("{}::*_bounds", B::NAME) } else { st[a].bounds.clone() };
         let (e_lo, e_hi) = (r.c[0].min(r.c[k - 1]), r.c[0].max(r.c[k - 1]));
         let min_at_end = match r.lo { Some(l) => l == e_lo, None => r.lo_f == e_lo.to_f64() };
         let max_at_end = match r.hi { Some(h) => h == e_hi, None => r.hi_f == e_hi.to_f64() };
@@ -551,15 +606,15 @@ fn check_curve<T: El, B: Bz<T>>(s: &Section, st: &[Sites], refs: &[&AxisRef], mo
         let pre_max = if small && max_at_end { "small-scale:end-point-extremum:" } else { pre };
         if small { bump(cls, if min_at_end { "small-scale:minimum-at-an-end-point" } else { "small-scale:minimum-interior" }); }
         s.eval(r.nonconst);
-        if let Some(t) = s.call(&st[a].min, &inp, || cur.tmin(a)) { check_extremum(s, &smin, &st[a].min, pre_min, true, t, r, &inp, w, cls); }
+        if let Some(t) = s.call(&st[a].min, &inp, || cur.tmin(a)) { check_extremum(s, &smin, &st[a].min, pre_min, xt(r), true, t, r, &inp, w, cls); }
         s.eval(r.nonconst);
-        if let Some(t) = s.call(&st[a].max, &inp, || cur.tmax(a)) { check_extremum(s, &smax, &st[a].max, pre_max, false, t, r, &inp, w, cls); }
+        if let Some(t) = s.call(&st[a].max, &inp, || cur.tmax(a)) { check_extremum(s, &smax, &st[a].max, pre_max, xt(r), false, t, r, &inp, w, cls); }
         if small { continue; }
         s.eval(r.nonconst);
         if let Some((t0, t1)) = s.call(&st[a].bounds, &inp, || cur.tbounds(a)) {
             let mut sink = Cls::new();
-            check_extremum(s, &st[a].bounds, &st[a].bounds, &format!("{}min-", pre), true, t0, r, &inp, w, &mut sink);
-            check_extremum(s, &st[a].bounds, &st[a].bounds, &format!("{}max-", pre), false, t1, r, &inp, w, &mut sink);
+            check_extremum(s, &sbounds, &st[a].bounds, &format!("{}min-", pre), xt(r), true, t0, r, &inp, w, &mut sink);
+            check_extremum(s, &sbounds, &st[a].bounds, &format!("{}max-", pre), xt(r), false, t1, r, &inp, w, &mut sink);
         }
     }
     // ---- boxes: in curve coordinates, contain the curve, touch it on each side
@@ -574,7 +629,7 @@ fn check_curve<T: El, B: Bz<T>>(s: &Section, st: &[Sites], refs: &[&AxisRef], mo
         let mut bad = false;
         for a in 0..nax {
             let r = refs[a];
-            let tl = tol::<T>(r.mag, 0.0);
+            let tl = tol::<T>(r.mag, 0.0) + xt(r);
             let (Some(gmin), Some(gmax)) = (unsc(got[0][a]).to_q(), unsc(got[1][a]).to_q()) else { bad = true; continue; };
             // contains every curve point: the extreme points (exact) and every grid point
             let cmin = cmp_tol::<T>(gmin, r.lo, r.lo_f, tl);
@@ -931,9 +986,20 @@ fn casteljau_f(c: &[f64], t: f64) -> f64 {
 /// distance of a coarse sample / the end point by rounding only: allowed 256 eps (S + |query|)^2.
 #[allow(clippy::too_many_arguments)]
 fn check_search_float<F: El>(s: &Section, site: &str, pre: &str, rc: &RefCurve, got: (F, P<F>), k: i32, pq: &[Q; 3], best_coarse: Option<f64>, d_end: f64, mag: f64, inp: &dyn Fn() -> Value, w: u64, cls: &mut Cls) {
+    check_search_float_at::<F>(s, site, pre, rc, got, k, 0.0, pq, best_coarse, d_end, mag, inp, w, cls)
+}
+/// The same with the curve and the query moved by `off` on every lane (second audit; `off` = 0: exactly the verdicts above).
+/// `rc`, `pq`, `best_coarse`, `d_end`, `mag` are in unmoved units; the returned point has `off` subtracted (exact: it is a multiple
+/// of the ulp of `off` and small).  With an offset every evaluation of vek carries S = (M + off) instead of M, but the differences
+/// point - query are small and (nearly) exact, so the distance bound is derived from the point error e = 64 eps S instead of from the
+/// squared magnitudes: vek returns a computed point R' whose computed squared distance is <= that of each computed coarse point C'
+/// (|C' - C| <= e per lane), hence d(R') <= (sqrt(d(C)) + sqrt(D) e)^2 (1 + 8 eps) <= d(C) + 4 sqrt(D d(C)) e + 2 D e^2 + 32 eps d(C).
+#[allow(clippy::too_many_arguments)]
+fn check_search_float_at<F: El>(s: &Section, site: &str, pre: &str, rc: &RefCurve, got: (F, P<F>), k: i32, off: f64, pq: &[Q; 3], best_coarse: Option<f64>, d_end: f64, mag: f64, inp: &dyn Fn() -> Value, w: u64, cls: &mut Cls) {
+    let mag = mag + off;
     let (t, pt) = got;
     let tf = t.as_f64();
-    let pf: Vec<f64> = (0..rc.d).map(|a| pt[a].unscaled(k).as_f64()).collect();
+    let pf: Vec<f64> = (0..rc.d).map(|a| pt[a].unscaled(k).as_f64() - off).collect();
     if !tf.is_finite() || pf.iter().any(|v| !v.is_finite()) {
         s.violation_w(site, &format!("{}non-finite-result", pre), json!({"input": inp(), "returned_t": tf, "returned_point_divided_by_scale": pf.iter().map(|v| format!("{:?}", v)).collect::<Vec<_>>()}), w);
         return;
@@ -953,9 +1019,15 @@ fn check_search_float<F: El>(s: &Section, site: &str, pre: &str, rc: &RefCurve, 
     let pqf: Vec<f64> = pq.iter().map(|q| q.to_f64()).collect();
     let d: f64 = (0..rc.d).map(|a| (pf[a] - pqf[a]) * (pf[a] - pqf[a])).sum();
     let r = st + pqf.iter().fold(0.0f64, |m, v| m.max(v.abs()));
-    let told = 256.0 * F::EPS * r * r;
+    let told_of = |reference: f64| -> f64 {
+        if off == 0.0 { return 256.0 * F::EPS * r * r; }
+        let (e, dd) = (64.0 * F::EPS * mag, rc.d as f64);
+        4.0 * (dd * reference).sqrt() * e + 2.0 * dd * e * e + 32.0 * F::EPS * reference
+    };
+    let told = told_of(d_end);
     if !(d <= d_end + told) { s.violation_w(site, &format!("{}farther-than-the-end-point", pre), json!({"input": inp(), "returned_t": tf, "returned_point_divided_by_scale": pf, "dist2": d, "dist2_of_end": d_end, "tolerance": told}), w); }
     if let Some(bc) = best_coarse {
+        let told = told_of(bc);
         if !(d <= bc + told) { s.violation_w(site, &format!("{}farther-than-a-coarse-sample", pre), json!({"input": inp(), "returned_t": tf, "returned_point_divided_by_scale": pf, "dist2": d, "dist2_of_best_coarse_sample": bc, "tolerance": told}), w); }
     }
     let best0 = best_coarse.map_or(d_end, |b| b.min(d_end));
@@ -966,12 +1038,20 @@ fn check_search_float<F: El>(s: &Section, site: &str, pre: &str, rc: &RefCurve, 
 
 /// binary_search_point_by_steps on a fuel-carrying float type, every control point and the query multiplied by 2^k
 fn search_float<F: El, B: Bz<F>>(s: &Section, curves: &[SearchCurve], queries: &[[Q; 3]], steps: &[u16], eps: Q, k: i32, fuel: i64) {
+    search_float_at::<F, B>(s, curves, queries, steps, eps, k, None, fuel)
+}
+/// the same, optionally with 2^sh added to every lane of every control point and of the query (then k = 0; classes `float:shifted:`)
+#[allow(clippy::too_many_arguments)]
+fn search_float_at<F: El, B: Bz<F>>(s: &Section, curves: &[SearchCurve], queries: &[[Q; 3]], steps: &[u16], eps: Q, k: i32, sh: Option<i32>, fuel: i64) {
     let site = format!("{}::binary_search_point_by_steps", B::NAME);
-    let pre = if k == 0 { "float:" } else { "float:scaled:" };
+    let pre = if sh.is_some() { "float:shifted:" } else if k == 0 { "float:" } else { "float:scaled:" };
+    assert!(sh.is_none() || k == 0);
+    let offq = sh.map_or(Q::ZERO, pow2q);
+    let off = offq.to_f64();
     let bud = Budget::with_fuel(fuel);
     curves.par_iter().for_each(|cv| {
         let rc = RefCurve::new(&cv.ctrl, B::D);
-        let pts: Vec<P<F>> = cv.ctrl.iter().map(|p| [F::of_q_scaled(Q::int(p[0] as i128), k), F::of_q_scaled(Q::int(p[1] as i128), k), F::of_q_scaled(Q::int(p[2] as i128), k)]).collect();
+        let pts: Vec<P<F>> = cv.ctrl.iter().map(|p| [F::of_q_scaled(Q::int(p[0] as i128).add(offq), k), F::of_q_scaled(Q::int(p[1] as i128).add(offq), k), F::of_q_scaled(Q::int(p[2] as i128).add(offq), k)]).collect();
         let cur = B::build(&pts);
         let nontrivial = cv.ctrl.iter().any(|p| *p != cv.ctrl[0]);
         let axf: Vec<Vec<f64>> = rc.ax.iter().map(|a| a.iter().map(|q| q.to_f64()).collect()).collect();
@@ -991,22 +1071,69 @@ fn search_float<F: El, B: Bz<F>>(s: &Section, curves: &[SearchCurve], queries: &
             let pqf = [pq[0].to_f64(), pq[1].to_f64(), pq[2].to_f64()];
             let d2f = |c: &[f64; 3]| (0..B::D).map(|a| (c[a] - pqf[a]) * (c[a] - pqf[a])).sum::<f64>();
             let d_end = dist2(&endp, pq).to_f64();
-            let px: P<F> = [F::of_q_scaled(pq[0], k), F::of_q_scaled(pq[1], k), F::of_q_scaled(pq[2], k)];
+            let px: P<F> = [F::of_q_scaled(pq[0].add(offq), k), F::of_q_scaled(pq[1].add(offq), k), F::of_q_scaled(pq[2].add(offq), k)];
             for (si, &stp) in steps.iter().enumerate() {
-                let inp = || json!({"type": B::NAME, "elem": F::NAME, "controls": cv.ctrl.iter().map(|c| c[..B::D].to_vec()).collect::<Vec<_>>(), "query": jpt(pq, B::D), "controls_and_query_multiplied_by": format!("2^{}", k), "steps": stp, "epsilon": jq(eps)});
+                let inp = || json!({"type": B::NAME, "elem": F::NAME, "controls": cv.ctrl.iter().map(|c| c[..B::D].to_vec()).collect::<Vec<_>>(), "query": jpt(pq, B::D), "controls_and_query_multiplied_by": format!("2^{}", k), "every_lane_of_controls_and_query_increased_by": jq(offq), "steps": stp, "epsilon": jq(eps)});
                 if bud.abandoned() { continue; }
                 s.eval(nontrivial);
                 bump(&mut cls, if stp >= 32768 { "steps>=2^15" } else if stp.is_power_of_two() { "steps-power-of-two" } else { "steps-not-a-power-of-two" });
                 let best = coarse[si].iter().map(|c| d2f(c)).fold(None, |m: Option<f64>, v| Some(m.map_or(v, |x| x.min(v))));
                 if let Some(got) = bud.run_c(s, &site, pre, &inp, w, || cur.search_steps(px, stp, F::of_q(eps))) {
-                    check_search_float::<F>(s, &site, pre, &rc, got, k, pq, best, d_end, mag, &inp, w, &mut cls);
+                    check_search_float_at::<F>(s, &site, pre, &rc, got, k, off, pq, best, d_end, mag, &inp, w, &mut cls);
                     if nontrivial && s.wants_sample() && got.0 != F::one() && got.0 != F::zero() { s.sample(json!({"input": inp(), "returned_t": got.0.as_f64(), "returned_point": (0..B::D).map(|a| format!("{:?}", got.1[a])).collect::<Vec<_>>(), "dist2_end": d_end, "dist2_best_coarse": best})); }
                 }
             }
         }
         flush(s, cls);
     });
-    s.meta(&format!("{}<{}> x 2^{}", B::NAME, F::NAME, k), json!({"curves": curves.len(), "queries": queries.len(), "steps": steps, "epsilon": jq(eps), "budget": bud.meta()}));
+    s.meta(&format!("{}<{}> x 2^{}{}", B::NAME, F::NAME, k, sh.map_or(String::new(), |e| format!(" + 2^{}", e))), json!({"curves": curves.len(), "queries": queries.len(), "steps": steps, "epsilon": jq(eps), "budget": bud.meta()}));
+}
+
+/// second audit: the general entry point binary_search_point on a fuel-carrying float type: caller-supplied coarse pairs (points of the
+/// reference curve rounded to the type), dyadic and non-dyadic half intervals; optionally every lane moved by 2^sh
+fn search_direct_float<F: El, B: Bz<F>>(s: &Section, curves: &[SearchCurve], queries: &[[Q; 3]], eps: Q, sh: Option<i32>) {
+    let site = format!("{}::binary_search_point", B::NAME);
+    let pre = if sh.is_some() { "float:shifted:" } else { "float:" };
+    let offq = sh.map_or(Q::ZERO, pow2q);
+    let off = offq.to_f64();
+    let coarse_ts: [(&'static str, Vec<Q>); 3] = [("coarse-empty", vec![]), ("coarse-single", vec![Q::new(1, 2)]), ("coarse-uneven", vec![Q::ZERO, Q::new(1, 4), Q::new(3, 4)])];
+    let halves = [Q::new(1, 2), Q::new(1, 8), Q::new(1, 3)];
+    let bud = Budget::new();
+    curves.par_iter().for_each(|cv| {
+        let rc = RefCurve::new(&cv.ctrl, B::D);
+        let pts: Vec<P<F>> = cv.ctrl.iter().map(|p| [F::of_q(Q::int(p[0] as i128).add(offq)), F::of_q(Q::int(p[1] as i128).add(offq)), F::of_q(Q::int(p[2] as i128).add(offq))]).collect();
+        let cur = B::build(&pts);
+        let nontrivial = cv.ctrl.iter().any(|p| *p != cv.ctrl[0]);
+        let endp = rc.end();
+        let mag = cv.ctrl.iter().flatten().fold(0.0f64, |m, v| m.max(v.unsigned_abs() as f64));
+        let wc: u64 = cv.ctrl.iter().flatten().map(|v| v.unsigned_abs()).sum();
+        let mut cls = Cls::new();
+        for pq in queries {
+            let w = wc + qw(pq);
+            let pqf = [pq[0].to_f64(), pq[1].to_f64(), pq[2].to_f64()];
+            let d_end = dist2(&endp, pq).to_f64();
+            let px: P<F> = [F::of_q(pq[0].add(offq)), F::of_q(pq[1].add(offq)), F::of_q(pq[2].add(offq))];
+            for (cname, ts) in &coarse_ts {
+                // coarse parameters are dyadic: the reference points k/64 (quadratic: k/16) are exact in f32 and f64 without the offset;
+                // with it they are rounded to the type (<= 1 ulp of the offset, covered by the point error e of the bound)
+                let cp: Vec<(Q, [Q; 3])> = ts.iter().map(|t| (*t, rc.at(*t))).collect();
+                let best = cp.iter().map(|c| (0..B::D).map(|a| { let v = c.1[a].to_f64() - pqf[a]; v * v }).sum::<f64>()).fold(None, |m: Option<f64>, v| Some(m.map_or(v, |x| x.min(v))));
+                for h in halves {
+                    let inp = || json!({"type": B::NAME, "elem": F::NAME, "controls": cv.ctrl.iter().map(|c| c[..B::D].to_vec()).collect::<Vec<_>>(), "query": jpt(pq, B::D), "every_lane_of_controls_query_and_coarse_points_increased_by": jq(offq),
+                        "coarse_parameters": jqs(ts), "half_interval": jq(h), "epsilon": jq(eps)});
+                    if bud.abandoned() { continue; }
+                    s.eval(nontrivial);
+                    bump(&mut cls, cname);
+                    let cx: Vec<(F, P<F>)> = cp.iter().map(|(t, q)| (F::of_q(*t), [F::of_q(q[0].add(offq)), F::of_q(q[1].add(offq)), F::of_q(q[2].add(offq))])).collect();
+                    if let Some(got) = bud.run_c(s, &site, pre, &inp, w, || cur.search(px, cx, F::of_q(h), F::of_q(eps))) {
+                        check_search_float_at::<F>(s, &site, pre, &rc, got, 0, off, pq, best, d_end, mag, &inp, w, &mut cls);
+                    }
+                }
+            }
+        }
+        flush(s, cls);
+    });
+    s.meta(&format!("{}<{}>{}", B::NAME, F::NAME, sh.map_or(String::new(), |e| format!(" + 2^{}", e))), json!({"curves": curves.len(), "queries": queries.len(), "coarse_sets": 3, "half_intervals": ["1/2", "1/8", "1/3"], "epsilon": jq(eps), "budget": bud.meta()}));
 }
 
 /// steps = 0 on floats: no coarse sample, half interval 1/(0+0).  The statement still applies (the result has to be a curve point no
@@ -1039,25 +1166,32 @@ fn chains(th: bool) -> &'static [&'static [u16]] {
 /// float tiers of the length: general curves, every control multiplied by 2^k; the result is multiplied by 2^-k (exact) and judged
 /// in unscaled units against chord and control polygon computed in f64, tolerance 512 (n+2) eps_F max(M, polygon, 1)
 fn length_float<F: El, B: Bz<F>>(s: &Section, curves: &[SearchCurve], k: i32, chains: &[&[u16]]) {
+    length_float_at::<F, B>(s, curves, k, None, chains)
+}
+/// the same, optionally with 2^sh added to every lane of every control point (then k = 0; classes prefixed `shifted:`): chord and control
+/// polygon do not change, every evaluation of vek carries the offset: tolerance 512 (n+2) eps_F max(M + 2^sh, polygon, 1)
+fn length_float_at<F: El, B: Bz<F>>(s: &Section, curves: &[SearchCurve], k: i32, sh: Option<i32>, chains: &[&[u16]]) {
     let site = format!("{}::length_by_discretization", B::NAME);
-    let pre = if k == 0 { "" } else { "scaled:" };
+    let pre = if sh.is_some() { "shifted:" } else if k == 0 { "" } else { "scaled:" };
+    assert!(sh.is_none() || k == 0);
+    let offq = sh.map_or(Q::ZERO, pow2q);
     curves.par_iter().for_each(|cv| {
         let mut cls = Cls::new();
         let pf: Vec<P<f64>> = cv.ctrl.iter().map(|p| [p[0] as f64, p[1] as f64, p[2] as f64]).collect();
-        let pts: Vec<P<F>> = cv.ctrl.iter().map(|p| [F::of_q_scaled(Q::int(p[0] as i128), k), F::of_q_scaled(Q::int(p[1] as i128), k), F::of_q_scaled(Q::int(p[2] as i128), k)]).collect();
+        let pts: Vec<P<F>> = cv.ctrl.iter().map(|p| [F::of_q_scaled(Q::int(p[0] as i128).add(offq), k), F::of_q_scaled(Q::int(p[1] as i128).add(offq), k), F::of_q_scaled(Q::int(p[2] as i128).add(offq), k)]).collect();
         let cur = B::build(&pts);
         let seg = |a: &P<f64>, b: &P<f64>| fnorm(&[b[0] - a[0], b[1] - a[1], b[2] - a[2]]);
         let chord = seg(&pf[0], &pf[B::K - 1]);
         let poly: f64 = pf.windows(2).map(|w| seg(&w[0], &w[1])).sum();
         let mag = pf.iter().flatten().fold(0.0f64, |m, v| m.max(v.abs()));
-        let tolf = |n: u16| 512.0 * (n as f64 + 2.0) * F::EPS * mag.max(poly).max(1.0);
+        let tolf = |n: u16| 512.0 * (n as f64 + 2.0) * F::EPS * (mag + offq.to_f64()).max(poly).max(1.0);
         let collinear = (poly - chord).abs() <= 512.0 * 2.0 * f64::EPSILON * mag.max(poly).max(1.0);
         let kind = if poly == 0.0 { "single-point" } else if collinear { "straight-monotone(chord=polygon)" } else { "bent-or-overshooting(chord<polygon)" };
         let w: u64 = cv.ctrl.iter().flatten().map(|v| v.unsigned_abs()).sum();
         for chain in chains {
             let mut prev: Option<(u16, f64)> = None;
             for &n in chain.iter() {
-                let inp = || json!({"type": B::NAME, "elem": F::NAME, "controls": cv.ctrl.iter().map(|c| c[..B::D].to_vec()).collect::<Vec<_>>(), "every_control_multiplied_by": format!("2^{}", k), "step_count": n});
+                let inp = || json!({"type": B::NAME, "elem": F::NAME, "controls": cv.ctrl.iter().map(|c| c[..B::D].to_vec()).collect::<Vec<_>>(), "every_control_multiplied_by": format!("2^{}", k), "every_lane_increased_by": jq(offq), "step_count": n});
                 s.eval(poly != 0.0);
                 bump(&mut cls, kind);
                 let Some(l) = s.call(&site, &inp, || cur.length(n)) else { prev = None; continue; };
@@ -1074,7 +1208,88 @@ fn length_float<F: El, B: Bz<F>>(s: &Section, curves: &[SearchCurve], k: i32, ch
         }
         flush(s, cls);
     });
-    s.meta(&format!("{}<{}> x 2^{}", B::NAME, F::NAME, k), json!({"curves": curves.len(), "chains": chains}));
+    s.meta(&format!("{}<{}> x 2^{}{}", B::NAME, F::NAME, k, sh.map_or(String::new(), |e| format!(" + 2^{}", e))), json!({"curves": curves.len(), "chains": chains}));
+}
+
+// ------------------------------------------------------------------------------------------------
+// second audit: families around the special values of the per-axis code
+
+/// cubic coefficient of the axis polynomial (x'/3 = lead t^2 + ...): zero iff the derivative is at most linear
+fn lead(c: &[Q]) -> Q { c[3].sub(c[2].mul(Q::int(3))).add(c[1].mul(Q::int(3))).sub(c[0]) }
+fn fits_f64(q: Q) -> bool { Q::from_f64(q.to_f64()) == Some(q) }
+fn fits_f32(q: Q) -> bool { Q::from_f64((q.to_f64() as f32) as f64) == Some(q) }
+
+/// Nearly quadratic cubics: every integer quadruple over {-r..r} whose cubic coefficient vanishes, with the last control moved by
+/// +-2^-j, so that the leading coefficient of the derivative is 3 * 2^-j: non-zero, *above* the absolute epsilon of the degeneracy test,
+/// and tiny against the other two coefficients.  Only tuples that the element type represents exactly (`fits`).
+/// The reference (`axis_ref`) takes the stationary points from the cancellation-free form of the quadratic formula.
+fn nearly_quadratic_refs(r: i64, js: &[i32], fits: fn(Q) -> bool) -> Vec<AxisRef> {
+    let alph: Vec<i64> = (-r..=r).collect();
+    let mut tu: Vec<(Vec<i64>, i32, i128)> = Vec::new();
+    vx::lattice::tuples(&alph, 4, |t| {
+        let c: Vec<Q> = t.iter().map(|v| Q::int(*v as i128)).collect();
+        if lead(&c) != Q::ZERO { return; }
+        for &j in js { for sg in [1i128, -1] { tu.push((t.to_vec(), j, sg)); } }
+    });
+    tu.par_iter().filter_map(|(t, j, sg)| {
+        let base: Vec<Q> = t.iter().map(|v| Q::int(*v as i128)).collect();
+        let delta = Q::new(*sg, 1i128 << *j);
+        let mut c = base.clone();
+        c[3] = c[3].add(delta);
+        if !fits(c[3]) { return None; }
+        let mut a = axis_ref_pert(&base, delta);
+        // weight: size of the integers + rank of the delta in its list (so that f64 and f32 witnesses are ordered alike)
+        a.weight = t.iter().map(|v| v.unsigned_abs()).sum::<u64>() + js.iter().position(|x| x == j).unwrap() as u64;
+        Some(a)
+    }).collect()
+}
+/// Reference of base + delta on the last control (integer base with vanishing cubic coefficient, delta a tiny power of two).  The i128
+/// rationals cannot compare values with denominators 2^51 * 240^3, so everything beyond the coefficients is an f64 reference (as for the
+/// irrational tuples of `axis_ref`): x'/3 = delta t^2 + B t + C with exact delta, B, C; roots by q = -(B + sgn(B) sqrt(disc))/2, q/delta
+/// and C/q (no cancellation); values = exact integer part (de Casteljau over Q, then rounded once) + delta t^3.
+fn delta_label(delta: Q, failing: bool) -> &'static str {
+    const OK: [&str; 11] = ["delta=2^-14", "delta=2^-18", "delta=2^-20", "delta=2^-21", "delta=2^-22", "delta=2^-40", "delta=2^-44", "delta=2^-47", "delta=2^-49", "delta=2^-50", "delta=2^-51"];
+    const BAD: [&str; 11] = ["delta=2^-14:extremum-wrong", "delta=2^-18:extremum-wrong", "delta=2^-20:extremum-wrong", "delta=2^-21:extremum-wrong", "delta=2^-22:extremum-wrong", "delta=2^-40:extremum-wrong", "delta=2^-44:extremum-wrong", "delta=2^-47:extremum-wrong", "delta=2^-49:extremum-wrong", "delta=2^-50:extremum-wrong", "delta=2^-51:extremum-wrong"];
+    let j = delta.d.trailing_zeros();
+    let i = [14u32, 18, 20, 21, 22, 40, 44, 47, 49, 50, 51].iter().position(|x| *x == j).expect("delta of the nearly quadratic family");
+    if failing { BAD[i] } else { OK[i] }
+}
+fn axis_ref_pert(base: &[Q], delta: Q) -> AxisRef {
+    assert!(base.len() == 4 && lead(base) == Q::ZERO && delta != Q::ZERO);
+    let two = Q::int(2);
+    let b = base[2].sub(base[1].mul(two)).add(base[0]).mul(two);
+    let cc = base[1].sub(base[0]);
+    let (af, bf, cf) = (delta.to_f64(), b.to_f64(), cc.to_f64());
+    let disc = b.mul(b).sub(Q::int(4).mul(delta).mul(cc)); // exact: denominators <= 2^51
+    let mut roots: Vec<f64> = Vec::new();
+    let branch: &'static str;
+    if disc < Q::ZERO { branch = "no-real-root"; } else {
+        let df = disc.to_f64();
+        let qq = -0.5 * (bf + if bf >= 0.0 { df.sqrt() } else { -df.sqrt() });
+        roots.push(qq / af);
+        if qq != 0.0 { roots.push(cf / qq); }
+        let ins = roots.iter().filter(|r| **r > 0.0 && **r < 1.0).count();
+        branch = ["irrational-roots:none-inside", "irrational-roots:one-inside", "irrational-roots:both-inside"][ins.min(2)];
+    }
+    let mut c = base.to_vec();
+    c[3] = c[3].add(delta);
+    let val = |t: Q| -> f64 { let tf = t.to_f64(); casteljau(base, t).to_f64() + af * tf * tf * tf };
+    let valf = |t: f64| -> f64 {
+        // power basis of the integer part (exact small integers) + delta t^3
+        let bq: Vec<f64> = base.iter().map(|q| q.to_f64()).collect();
+        let (a0, a1, a2) = (bq[0], 3.0 * (bq[1] - bq[0]), 3.0 * (bq[2] - 2.0 * bq[1] + bq[0]));
+        ((af * t + a2) * t + a1) * t + a0
+    };
+    let (e0, e1) = (c[0].to_f64(), c[3].to_f64());
+    let (mut lo_f, mut hi_f) = (e0.min(e1), e0.max(e1));
+    for r in &roots { if *r > 0.0 && *r < 1.0 { let v = valf(*r); lo_f = lo_f.min(v); hi_f = hi_f.max(v); } }
+    let (mut glo, mut ghi) = (e0, e0);
+    for i in 0..=GRID { let v = if i == GRID { e1 } else { val(Q::new(i, GRID)) }; glo = glo.min(v); ghi = ghi.max(v); }
+    let mag = c.iter().map(|q| q.abs().to_f64()).fold(0.0, f64::max);
+    AxisRef {
+        c: c.clone(), branch, extra: Some(delta_label(delta, false)), rational: false, lo: None, hi: None, lo_f, hi_f, glo: Q::from_f64(glo).unwrap(), ghi: Q::from_f64(ghi).unwrap(), mag,
+        nonconst: c.iter().any(|q| *q != c[0]), weight: 0, pert: Some((base.to_vec(), delta)),
+    }
 }
 
 // ------------------------------------------------------------------------------------------------
@@ -1228,6 +1443,90 @@ fn main() {
             axis_sweep::<f64, CubicBezier3<f64>>(s, &wcubic_all, Mode::Plain);
             s.meta("alphabet", json!(wide));
             s.meta("tuples", json!({"quadratic": wquad.len(), "cubic": wcubic.len(), "cubic_rational": wcubic_rat.len()}));
+        });
+    }
+
+    // ---- second audit: next to the thresholds, far from the origin, nearly degenerate leading coefficient
+    let cubic_lin: Vec<&AxisRef> = cubic.iter().filter(|r| lead(&r.c) == Q::ZERO).collect();
+    rep.section("per-axis extrema and boxes just above the degeneracy thresholds (exact, f64, f32)",
+        "the integer triples / quadruples multiplied by the smallest power of two that keeps every non-zero quantity compared with the absolute epsilon above it: quadruples in general 2^-28 (X, f64; smallest non-zero discriminant 36 * 2^-56 = 2.25 eps, smallest leading coefficient 3 * 2^-28) and 2^-14 (f32: 36 * 2^-28 = 1.125 eps);          triples and the quadruples whose derivative is at most linear (no discriminant) 2^-51 (X, f64: smallest divisor 2^-51 = 2 eps, smallest linear coefficient 6 * 2^-51) and 2^-22 (f32: 2 eps); X cubics: rational stationary points only.          Everything of the scaled section is asserted with the same oracles (classes prefixed scaled:): a guard that is any wider than the epsilon of the type loses an interior extremum here; non-trivial: axis not constant",
+        true, false, |s| {
+        s.require_classes(QUAD_BRANCHES);
+        s.require_classes(CUBIC_RATIONAL_BRANCHES);
+        s.require_classes(CUBIC_IRRATIONAL_BRANCHES);
+        s.require_classes(VERDICTS);
+        s.require_classes(&["reported-0-inflections", "reported-1-inflection", "reported-2-inflections", "box-extends-beyond-end-points", "box-spanned-by-end-points", "box-is-the-curve-extent"]);
+        axis_sweep::<X, CubicBezier2<X>>(s, &cubic_rat, Mode::Scaled(-28));
+        axis_sweep::<X, CubicBezier3<X>>(s, &cubic_rat, Mode::Scaled(-28));
+        axis_sweep::<f64, CubicBezier2<f64>>(s, &cubic_all, Mode::Scaled(-28));
+        axis_sweep::<f64, CubicBezier3<f64>>(s, &cubic_all, Mode::Scaled(-28));
+        axis_sweep::<f32, CubicBezier2<f32>>(s, &cubic_all, Mode::Scaled(-14));
+        axis_sweep::<f32, CubicBezier3<f32>>(s, &cubic_all, Mode::Scaled(-14));
+        axis_sweep::<X, QuadraticBezier2<X>>(s, &quad_all, Mode::Scaled(-51));
+        axis_sweep::<X, QuadraticBezier3<X>>(s, &quad_all, Mode::Scaled(-51));
+        axis_sweep::<X, CubicBezier2<X>>(s, &cubic_lin, Mode::Scaled(-51));
+        axis_sweep::<X, CubicBezier3<X>>(s, &cubic_lin, Mode::Scaled(-51));
+        axis_sweep::<f64, QuadraticBezier2<f64>>(s, &quad_all, Mode::Scaled(-51));
+        axis_sweep::<f64, QuadraticBezier3<f64>>(s, &quad_all, Mode::Scaled(-51));
+        axis_sweep::<f64, CubicBezier2<f64>>(s, &cubic_lin, Mode::Scaled(-51));
+        axis_sweep::<f64, CubicBezier3<f64>>(s, &cubic_lin, Mode::Scaled(-51));
+        axis_sweep::<f32, QuadraticBezier2<f32>>(s, &quad_all, Mode::Scaled(-22));
+        axis_sweep::<f32, QuadraticBezier3<f32>>(s, &quad_all, Mode::Scaled(-22));
+        axis_sweep::<f32, CubicBezier2<f32>>(s, &cubic_lin, Mode::Scaled(-22));
+        axis_sweep::<f32, CubicBezier3<f32>>(s, &cubic_lin, Mode::Scaled(-22));
+        s.meta("tables", table_meta.clone());
+        s.meta("quadruples_with_at_most_linear_derivative", json!(cubic_lin.len()));
+    });
+    rep.section("per-axis extrema and boxes of curves far from the origin (exact, f64, f32)",
+        "the integer triples / quadruples with 2^26 (X, f64; f64 also -2^26) resp. 2^12 (f32) added to every control (exact in the type; every coefficient of the derivative is still computed exactly, so the parameters are those of the unshifted curve; eps * offset^2 >= 1: any guard or rewrite that measures a difference of controls against their squared size degenerates here), on every axis of all four types;          inflections, min_*/max_*/ *_bounds judged through the returned parameters on the unshifted reference, aabr/aabb with the offset subtracted (exact); classes prefixed shifted:; float tolerance: that of the f64 section + 48 eps (offset + M)          (vek decides and fills boxes with its own evaluate(): forward error <= 16 eps (offset + M) per evaluation, twice for a decision, once more for the coordinate); X cubics: rational stationary points only; non-trivial: axis not constant",
+        true, false, |s| {
+        s.require_classes(QUAD_BRANCHES);
+        s.require_classes(CUBIC_RATIONAL_BRANCHES);
+        s.require_classes(CUBIC_IRRATIONAL_BRANCHES);
+        s.require_classes(VERDICTS);
+        s.require_classes(&["reported-0-inflections", "reported-1-inflection", "reported-2-inflections", "box-extends-beyond-end-points", "box-spanned-by-end-points", "box-is-the-curve-extent"]);
+        axis_sweep::<X, QuadraticBezier2<X>>(s, &quad_all, Mode::Shifted(26, false));
+        axis_sweep::<X, QuadraticBezier3<X>>(s, &quad_all, Mode::Shifted(26, false));
+        axis_sweep::<X, CubicBezier2<X>>(s, &cubic_rat, Mode::Shifted(26, false));
+        axis_sweep::<X, CubicBezier3<X>>(s, &cubic_rat, Mode::Shifted(26, false));
+        axis_sweep::<f64, QuadraticBezier2<f64>>(s, &quad_all, Mode::Shifted(26, false));
+        axis_sweep::<f64, QuadraticBezier3<f64>>(s, &quad_all, Mode::Shifted(26, false));
+        axis_sweep::<f64, CubicBezier2<f64>>(s, &cubic_all, Mode::Shifted(26, false));
+        axis_sweep::<f64, CubicBezier3<f64>>(s, &cubic_all, Mode::Shifted(26, false));
+        // the offset with the other sign (a guard that forgets an absolute value, a sign-dependent shortcut)
+        axis_sweep::<f64, QuadraticBezier2<f64>>(s, &quad_all, Mode::Shifted(26, true));
+        axis_sweep::<f64, QuadraticBezier3<f64>>(s, &quad_all, Mode::Shifted(26, true));
+        axis_sweep::<f64, CubicBezier2<f64>>(s, &cubic_all, Mode::Shifted(26, true));
+        axis_sweep::<f64, CubicBezier3<f64>>(s, &cubic_all, Mode::Shifted(26, true));
+        axis_sweep::<f32, QuadraticBezier2<f32>>(s, &quad_all, Mode::Shifted(12, false));
+        axis_sweep::<f32, QuadraticBezier3<f32>>(s, &quad_all, Mode::Shifted(12, false));
+        axis_sweep::<f32, CubicBezier2<f32>>(s, &cubic_all, Mode::Shifted(12, false));
+        axis_sweep::<f32, CubicBezier3<f32>>(s, &cubic_all, Mode::Shifted(12, false));
+        s.meta("tables", table_meta.clone());
+    });
+    rep.section("per-axis extrema of small curves away from the origin (exact)",
+        "the small-curve section with the tiny curve moved to 1: controls 1 + n * 2^-60 (exact type only), i.e. values that are nearly equal relative to their size; same sites, classes and assertions as there (end-point extrema and boxes spanned by end points under small-scale:end-point-extremum:, interior ones under the keys of the known absolute-epsilon finding),          on QuadraticBezier2<X> and CubicBezier3<X> (rational stationary points); non-trivial: axis not constant",
+        true, false, |s| {
+        s.require_classes(&["small-scale:minimum-at-an-end-point", "small-scale:minimum-interior", "small-scale:box-spanned-by-end-points(asserted)"]);
+        let sc = Q::new(1, 1i128 << 60);
+        axis_sweep::<X, QuadraticBezier2<X>>(s, &quad_all, Mode::SmallAt(sc, Q::ONE));
+        axis_sweep::<X, CubicBezier3<X>>(s, &cubic_rat, Mode::SmallAt(sc, Q::ONE));
+    });
+    {
+        let r_nq = if th { 4 } else { 3 };
+        let nq64 = nearly_quadratic_refs(r_nq, &[40, 44, 47, 49, 50, 51], fits_f64);
+        let nq32 = nearly_quadratic_refs(r_nq, &[14, 18, 20, 21, 22], fits_f32);
+        let nq64r: Vec<&AxisRef> = nq64.iter().collect();
+        let nq32r: Vec<&AxisRef> = nq32.iter().collect();
+        rep.section("per-axis extrema and boxes of nearly quadratic cubics (f64, f32)",
+            "every integer quadruple over {-3..3} (thorough {-4..4}) whose cubic coefficient vanishes (derivative at most linear), with the last control moved by +-2^-j, j in {40,44,47,49,50,51} (f64) / {14,18,20,21,22} (f32), where the type represents it exactly: the leading coefficient of the derivative is 3 * 2^-j, above the absolute epsilon of the degeneracy test and tiny against the other coefficients              (the shape of a degree-elevated quadratic whose control points were rounded); on every axis of CubicBezier2/3; reference: exact controls, stationary points from the cancellation-free quadratic formula, grid k/240 exact, value at the returned parameter = exact integer part + delta t^3;              assertions and tolerances of the f64/f32 sections; sites per type ('<Type>::*_inflections', '::min_*', '::max_*', '::*_bounds', '::aabr', '::aabb'), classes prefixed nearly-quadratic:; non-trivial: axis not constant",
+            true, false, |s| {
+            s.require_classes(&["irrational-roots:one-inside", "irrational-roots:none-inside", "min-interior", "max-interior", "reported-1-inflection"]);
+            axis_sweep::<f64, CubicBezier2<f64>>(s, &nq64r, Mode::Tagged("nearly-quadratic:"));
+            axis_sweep::<f64, CubicBezier3<f64>>(s, &nq64r, Mode::Tagged("nearly-quadratic:"));
+            axis_sweep::<f32, CubicBezier2<f32>>(s, &nq32r, Mode::Tagged("nearly-quadratic:"));
+            axis_sweep::<f32, CubicBezier3<f32>>(s, &nq32r, Mode::Tagged("nearly-quadratic:"));
+            s.meta("tuples", json!({"f64": nq64.len(), "f32": nq32.len()}));
         });
     }
 
@@ -1391,6 +1690,65 @@ fn main() {
             length_float::<f32, QuadraticBezier3<f32>>(s, &l3q, k, chains(th));
             length_float::<f32, CubicBezier3<f32>>(s, &l3c, k, chains(th));
         }
+    });
+
+    // ---- second audit: length and search far from the origin, general entry point of the search on floats
+    rep.section("discretized length of curves far from the origin (f64, f32)",
+        "length_by_discretization on f64 and f32 for the curves of the previous section with 2^26 (f64) resp. 2^8 (f32) added to every lane of every control point (exact): chord and control polygon are those of the unshifted curve, the segments are short against the coordinates (eps * |point|^2 is about 1 on f64: a segment length taken from expanded squares, or a degenerate-segment guard relative to the squared coordinates, is wrong here);          chord - tol <= L(n) <= control polygon + tol, L(2n+1) >= L(n) - tol, tol = 512 (n+2) eps_F max(M + offset, polygon, 1); classes prefixed shifted:; non-trivial: not a single point",
+        true, false, |s| {
+        s.require_classes(&["single-point", "straight-monotone(chord=polygon)", "bent-or-overshooting(chord<polygon)", "doubling-strictly-increases", "doubling-keeps-length"]);
+        let l2q = [curves_from(3, ASYM2, false, false), curves_from(3, &pts2_len, false, false)].into_iter().flatten().collect::<Vec<_>>();
+        let l2c = [curves_from(4, ASYM2, false, false), curves_from(4, if th { &pts2_len } else { &pts2_4 }, false, false)].into_iter().flatten().collect::<Vec<_>>();
+        let l3q = [curves_from(3, ASYM3, false, false), curves_from(3, &pts3_len, false, false)].into_iter().flatten().collect::<Vec<_>>();
+        let l3c = [curves_from(4, ASYM3, false, false), curves_from(4, &pts3_len, false, false)].into_iter().flatten().collect::<Vec<_>>();
+        length_float_at::<f64, QuadraticBezier2<f64>>(s, &l2q, 0, Some(26), chains(th));
+        length_float_at::<f64, CubicBezier2<f64>>(s, &l2c, 0, Some(26), chains(th));
+        length_float_at::<f64, QuadraticBezier3<f64>>(s, &l3q, 0, Some(26), chains(th));
+        length_float_at::<f64, CubicBezier3<f64>>(s, &l3c, 0, Some(26), chains(th));
+        length_float_at::<f32, QuadraticBezier2<f32>>(s, &l2q, 0, Some(8), chains(th));
+        length_float_at::<f32, CubicBezier2<f32>>(s, &l2c, 0, Some(8), chains(th));
+        length_float_at::<f32, QuadraticBezier3<f32>>(s, &l3q, 0, Some(8), chains(th));
+        length_float_at::<f32, CubicBezier3<f32>>(s, &l3c, 0, Some(8), chains(th));
+    });
+    rep.section("closest-point search far from the origin and through the general entry point (f64, f32)",
+        "(a) binary_search_point_by_steps on f64 (multiplication budget) with 2^30 added to every lane of every control point and of the query (exact): curve, query and all distances are those of the unshifted case, but eps * |point|^2 = 2^8, so squared distances must come from the differences; asymmetric sets and {-2,2}^D (cubics with fixed start in the quick tier), queries {-7/2,-1/2,3/2,9/2}^D (3-D quick: three values), steps {1,2,4,16,3}, epsilon 1/64;          (b) binary_search_point (caller-supplied coarse pairs: none / one at 1/2 / at 0, 1/4, 3/4, taken from the reference curve; half interval 1/2, 1/8, 1/3) on f64 and f32 unshifted and on f64 shifted by 2^30, asymmetric sets; (c) binary_search_point_by_steps on f64 / f32 with the smallest admissible epsilon 2 T::epsilon() (2^-51 / 2^-22: about 50 / 20 halvings of the interval), asymmetric sets, steps {1,4,3};          returned point (offset subtracted, exact) = curve point at the returned parameter within 64 eps S, S = (M + offset)(1+2|t|)^n outside [0,1]; squared distance <= that of the end point and of every coarse sample + the bound derived from the point error e = 64 eps (M + offset): 4 sqrt(D d) e + 2 D e^2 + 32 eps d (unshifted: the bound of the float section);          classes prefixed float:shifted: / float:; non-trivial: control points not all equal",
+        true, false, |s| {
+        s.require_classes(&["refinement-improved", "stayed-at-end-point", "stayed-at-coarse-sample", "coarse-empty", "coarse-single", "coarse-uneven", "steps-not-a-power-of-two"]);
+        let steps: &[u16] = &[1, 2, 4, 16, 3];
+        let eps = Q::new(1, 64);
+        let c2q = [curves_from(3, ASYM2, false, false), curves_from(3, &pts2_4, false, false)].into_iter().flatten().collect::<Vec<_>>();
+        let c2c = [curves_from(4, ASYM2, !th, false), curves_from(4, &pts2_4, !th, false)].into_iter().flatten().collect::<Vec<_>>();
+        let c3q = [curves_from(3, ASYM3, false, false), curves_from(3, &pts3_8, !th, false)].into_iter().flatten().collect::<Vec<_>>();
+        let c3c = [curves_from(4, ASYM3, !th, false), curves_from(4, &pts3_8, true, !th)].into_iter().flatten().collect::<Vec<_>>();
+        search_float_at::<Fd, QuadraticBezier2<Fd>>(s, &c2q, &qq2, steps, eps, 0, Some(30), FUEL_PER_SEARCH);
+        search_float_at::<Fd, CubicBezier2<Fd>>(s, &c2c, &qq2, steps, eps, 0, Some(30), FUEL_PER_SEARCH);
+        search_float_at::<Fd, QuadraticBezier3<Fd>>(s, &c3q, &qq3, steps, eps, 0, Some(30), FUEL_PER_SEARCH);
+        search_float_at::<Fd, CubicBezier3<Fd>>(s, &c3c, &qq3, steps, eps, 0, Some(30), FUEL_PER_SEARCH);
+        let a2q = curves_from(3, ASYM2, false, false);
+        let a2c = curves_from(4, ASYM2, !th, false);
+        let a3q = curves_from(3, ASYM3, false, false);
+        let a3c = curves_from(4, ASYM3, !th, false);
+        for sh in [None, Some(30)] {
+            search_direct_float::<Fd, QuadraticBezier2<Fd>>(s, &a2q, &qq2, eps, sh);
+            search_direct_float::<Fd, CubicBezier2<Fd>>(s, &a2c, &qq2, eps, sh);
+            search_direct_float::<Fd, QuadraticBezier3<Fd>>(s, &a3q, &qq3, eps, sh);
+            search_direct_float::<Fd, CubicBezier3<Fd>>(s, &a3c, &qq3, eps, sh);
+        }
+        search_direct_float::<Fs, QuadraticBezier2<Fs>>(s, &a2q, &qq2, eps, None);
+        search_direct_float::<Fs, CubicBezier2<Fs>>(s, &a2c, &qq2, eps, None);
+        search_direct_float::<Fs, QuadraticBezier3<Fs>>(s, &a3q, &qq3, eps, None);
+        search_direct_float::<Fs, CubicBezier3<Fs>>(s, &a3c, &qq3, eps, None);
+        // (c) the smallest admissible epsilon (the documented precondition is epsilon > T::epsilon()): 2 T::epsilon()
+        let st3: &[u16] = &[1, 4, 3];
+        let (e64, e32) = (Q::new(1, 1i128 << 51), Q::new(1, 1i128 << 22));
+        search_float_at::<Fd, QuadraticBezier2<Fd>>(s, &a2q, &qq2, st3, e64, 0, None, FUEL_PER_SEARCH);
+        search_float_at::<Fd, CubicBezier2<Fd>>(s, &a2c, &qq2, st3, e64, 0, None, FUEL_PER_SEARCH);
+        search_float_at::<Fd, QuadraticBezier3<Fd>>(s, &a3q, &qq3, st3, e64, 0, None, FUEL_PER_SEARCH);
+        search_float_at::<Fd, CubicBezier3<Fd>>(s, &a3c, &qq3, st3, e64, 0, None, FUEL_PER_SEARCH);
+        search_float_at::<Fs, QuadraticBezier2<Fs>>(s, &a2q, &qq2, st3, e32, 0, None, FUEL_PER_SEARCH);
+        search_float_at::<Fs, CubicBezier2<Fs>>(s, &a2c, &qq2, st3, e32, 0, None, FUEL_PER_SEARCH);
+        search_float_at::<Fs, QuadraticBezier3<Fs>>(s, &a3q, &qq3, st3, e32, 0, None, FUEL_PER_SEARCH);
+        search_float_at::<Fs, CubicBezier3<Fs>>(s, &a3c, &qq3, st3, e32, 0, None, FUEL_PER_SEARCH);
     });
 
     std::process::exit(rep.finish());
